@@ -392,6 +392,47 @@ def exponent_sign_fragment(syn):
             "{\n  broadcast use lemma_ended;\n  %s\n  %s\n  Some((input, ex_sign))\n}\n" % ("\n  ".join(out), sg))
 
 
+SYN_NUM_MODEL = """
+// the numbers the literal parsers build: `-x` is Negated(x)
+pub enum RealNumber { Negated(Box<RealNumber>), Lit(u64) }
+pub uninterp spec fn alt_num(alts: spec_fn(u64) -> bool, i: Input) -> Option<(Input, RealNumber)>;     // alt((..the literal parsers..)): which number literal follows
+#[verifier::external_body]
+pub fn alt_of_literals(i: Input) -> (r: Option<(Input, RealNumber)>) ensures r == alt_num(|x: u64| true, i), { unimplemented!() }
+"""
+
+
+def negation_fn(syn, fname):
+    """(X) `real_number` / `untyped_real_number` (src/syntax/src/literals.rs), whole body: `opt(dash)(input)?` -> `opt_of(A::Dash, input)?`; the
+    `alt((.. literal parsers ..))(input)?` -> `alt_of_literals(input)?` (WHICH literals are tried is not part of this contract);
+    `Ok((input, x))` -> `Some((input, x))`"""
+    sig, body = extract_fn(syn, fname)
+    b = strip_comments(body[body.index("{") + 1:body.rindex("}")])
+    b, n1 = re.subn(r"\bopt\(\s*dash\s*\)\s*\(\s*input\s*\)\s*\?", "opt_of(A::Dash, input)?", b)
+    b, n2 = re.subn(r"\balt\(\(\s*[\w\s,]+\)\)\s*\(\s*input\s*\)\s*\?", "alt_of_literals(input)?", b)
+    b = re.sub(r"\bOk\(\(", "Some((", b)
+    if n1 != 1 or n2 != 1 or re.search(r"\b(opt|alt|tag|Ok|Err)\(", b):
+        raise AnchorLost(fname + ": statements outside the transcription rules")
+    return ("fn %s(input: Input) -> (r: Option<(Input, RealNumber)>)\n"
+            "  // the literal is negated exactly when a minus sign was consumed in front of it\n"
+            "  ensures r == (match alt_num(|x: u64| true, opt_spec(A::Dash, input).0) { None => None::<(Input, RealNumber)>, Some((i2, x)) => Some((i2, if opt_spec(A::Dash, input).1 is Some { RealNumber::Negated(Box::new(x)) } else { x })) }),\n{\n%s\n}\n" % (fname, b))
+
+
+def complex_sign_fn(syn):
+    """(F) `complex_number` (src/syntax/src/literals.rs): the statement `let imaginary = match sign.kind { .. };`, verbatim; `unreachable!()` -> `unreached()`
+    (provably unreachable: the sign token comes from alt((plus, dash)))"""
+    sig, body = extract_fn(syn, "complex_number")
+    m = find_code(body, r"let\s+imaginary\s*=\s*match\s+sign\.kind\s*\{")
+    if not m:
+        raise AnchorLost("complex_number: `let imaginary = match sign.kind {` not found")
+    e = match_brace(body, m.end() - 1)
+    st = strip_comments(body[m.start():e]) + ";"
+    st = st.replace("unreachable!()", "unreached()")
+    return ("fn complex_imaginary_sign(sign: Token, imaginary_num: RealNumber) -> (imaginary: RealNumber)\n"
+            "  requires sign.kind == TokenKind::Plus || sign.kind == TokenKind::Dash,\n"
+            "  // `a - bi` has imaginary part -b, `a + bi` has imaginary part b\n"
+            "  ensures imaginary == (if sign.kind == TokenKind::Dash { RealNumber::Negated(Box::new(imaginary_num)) } else { imaginary_num }),\n{\n  %s\n  imaginary\n}\n" % st)
+
+
 def plan_units(plan):
     text = read_repo(LIT_RS)
     nodes = read_repo(NODES_RS)
@@ -417,6 +458,9 @@ def plan_units(plan):
         ("c13_route", lambda: routing(text, nodes, feats), {"real_route": "C13.verus.real.routing_table"}),
         ("c13_typed", lambda: [TYPED_MODEL, typed_integer_arm(text, feats)], {"typed_integer_arm": "C13.verus.real.suffixed_integer_clamps"}),
         ("c13_syn_sign", lambda: [SYN_MODEL, exponent_sign_fragment(read_repo(SYN_RS))], {"exponent_sign": "C13.verus.syntax.scientific_literal.exponent_sign"}),
+        ("c13_syn_neg", lambda: [SYN_MODEL, SYN_NUM_MODEL, negation_fn(read_repo(SYN_RS), "real_number"), negation_fn(read_repo(SYN_RS), "untyped_real_number")],
+         {"real_number": "C13.verus.syntax.real_number.negated_iff_minus", "untyped_real_number": "C13.verus.syntax.untyped_real_number.negated_iff_minus"}),
+        ("c13_syn_complex", lambda: [SYN_MODEL, SYN_NUM_MODEL, complex_sign_fn(read_repo(SYN_RS))], {"complex_imaginary_sign": "C13.verus.syntax.complex_number.imaginary_sign"}),
     ]
     what = {
         "dec": "`0d..` evaluates to I64(sum of digit * 10^i); accepted iff decimal digits that fit i64", "hex": "`0x..` evaluates to I64(value in radix 16)",
@@ -427,6 +471,8 @@ def plan_units(plan):
         "negated": "`-lit` has the kind of `lit` and the negated value; non-numeric operands are rejected",
         "complex": "real and imaginary parts go to re and im (re = 0 when absent)",
         "typed_integer_arm": "a suffixed integer literal is its digits read as an unsuffixed integer (double) and then converted to the suffix kind, i.e. by the clamping float -> kind conversion of C12, never by a wrapping integer cast",
+        "real_number": "the parser negates a real literal exactly when it consumed a minus sign in front of it", "untyped_real_number": "the parser negates an unsuffixed real literal exactly when it consumed a minus sign in front of it",
+        "complex_imaginary_sign": "the imaginary part of `a - bi` is the negated literal, that of `a + bi` the literal itself",
         "exponent_sign": "the parser of a scientific literal sets the negative-exponent flag exactly when the sign it consumed between the exponent marker and the exponent digits is a minus (an explicit plus, or no sign, leaves it unset)",
         "real_route": "every literal form is evaluated by its own evaluator"}
     for uname, build, fns in groups:
@@ -437,9 +483,9 @@ def plan_units(plan):
                 plan.anchor_errors.append((on, str(e)))
             continue
         can = "canary_" + uname
-        utext = vlib.verus_file((items if uname in ("c13_typed", "c13_syn_sign") else aliases + [model] + items) + [verus_canary(can, "x: u64", [])])
+        utext = vlib.verus_file((items if uname in ("c13_typed", "c13_syn_sign", "c13_syn_neg", "c13_syn_complex") else aliases + [model] + items) + [verus_canary(can, "x: u64", [])])
         for fn, on in fns.items():
-            plan.ob(on, "verus", "proved", functions=["src/interpreter/src/literals.rs: %s()" % fn.replace("real_route", "real").replace("typed_integer_arm", "real").replace("exponent_sign", "scientific_literal [src/syntax/src/literals.rs]")], what=what[fn])
+            plan.ob(on, "verus", "proved", functions=["src/interpreter/src/literals.rs: %s()" % fn.replace("real_route", "real").replace("typed_integer_arm", "real").replace("exponent_sign", "scientific_literal [src/syntax/src/literals.rs]").replace("complex_imaginary_sign", "complex_number [src/syntax/src/literals.rs]")], what=what[fn])
         plan.verus.append(VerusUnit(uname, utext, fns, [can]))
     plan.dropped += [
         "(X) literal evaluators extracted verbatim and rewritten by rules L1-L9 of units/vC13.py: chars.iter().collect() -> collect_string; i64::from_str_radix(..).unwrap() / str::parse(..).unwrap() -> model calls whose failure is an early None (a panic is an error, Interpreter::interpret converts it); format! -> fmt_dot / fmt_sci; Ref<T> = identity; doubles opaque (f64 -> F, unary minus -> fneg, x * 10f64.powf(e) -> fmul(x, fpow10(e))); panic!(..) -> return None; comments dropped",
